@@ -1147,10 +1147,10 @@ Section Theorems.
   Lemma top_files_EF d : top_files (map EF d) = d.
   Proof. induction d as [|f d IH]; cbn [map top_files]; [reflexivity|rewrite IH; reflexivity]. Qed.
 
-  Lemma after_parse_clean st p : place_clean st p = true ->
+  Lemma after_parse_clean st p : not_installed_dir_with_nonexec_candidate st p = true ->
     after_parse st p (locate (rs_src (resolve st p))) = st.
   Proof.
-    destruct p as [src|k|k fname| |lname k fname]; cbn [after_parse resolve place_clean]; intros Hc;
+    destruct p as [src|k|k fname| |lname k fname]; cbn [after_parse resolve not_installed_dir_with_nonexec_candidate]; intros Hc;
       try reflexivity.
     destruct (afind k st) as [d|] eqn:Hd; cbn [rs_src locate]; [|reflexivity].
     rewrite parse_dir_spec, top_files_EF. unfold parse_spec.
@@ -1186,7 +1186,7 @@ Section Theorems.
     destruct p as [src|j|j fname| |lname j fname]; cbn [resolve]; try discriminate.
     - destruct (afind j st); cbn; [auto|discriminate].
     - destruct (afind j st) as [d|]; [|cbn; discriminate]. destruct (find_file fname d); cbn; [auto|discriminate].
-    - destruct (afind j st) as [d|]; [|cbn; discriminate]. destruct (find_file fname d); cbn; discriminate.
+    - destruct (afind j st) as [d|]; [|cbn; discriminate]. destruct (find_file fname d); cbn; [auto|discriminate].
   Qed.
 
   Lemma same_name_true o n : same_name o n = true <-> o = Some n.
@@ -1195,25 +1195,19 @@ Section Theorems.
     split; [intros H; apply str_eqb_eq in H; subst; reflexivity|intros H; injection H as ->; apply str_eqb_refl].
   Qed.
 
-  (* under [place_clean] a source that vanishes with the directory of n designates an executable in it *)
-  Lemma clean_target st p exe n copy : place_clean st p = true ->
+  (* under [not_installed_dir_with_nonexec_candidate] a source that vanishes with the directory of n designates an executable in it *)
+  Lemma clean_target st p exe n copy : not_installed_dir_with_nonexec_candidate st p = true ->
     locate (rs_src (resolve st p)) = LOk exe n copy ->
     same_name (rs_target (resolve st p)) n = true -> same_name (rs_home (resolve st p)) n = true.
   Proof.
-    destruct p as [src|j|j fname| |lname j fname]; cbn [resolve place_clean]; intros Hc Hl Ht;
+    destruct p as [src|j|j fname| |lname j fname]; cbn [resolve not_installed_dir_with_nonexec_candidate]; intros Hc Hl Ht;
       try (cbn in Ht; discriminate).
     - destruct (afind j st); exact Ht.
     - destruct (afind j st) as [d|]; [|exact Ht]. destruct (find_file fname d); exact Ht.
-    - exfalso. destruct (afind j st) as [d|]; [|cbn in Ht; discriminate].
-      destruct (find_file fname d) as [f|]; [|cbn in Ht; discriminate].
-      cbn [rs_src rs_target locate f_name] in Hl, Ht.
-      destruct (pname_of lname) as [m|] eqn:Hn; [|discriminate].
-      destruct (is_exec _); [|discriminate]. injection Hl as _ Hmn _.
-      apply same_name_true in Ht. injection Ht as Hjn.
-      assert (E : Some m = Some j) by congruence. apply same_name_true in E. rewrite E in Hc. discriminate.
+    - destruct (afind j st) as [d|]; [|exact Ht]. destruct (find_file fname d); exact Ht.
   Qed.
 
-  Lemma install_at_rel tbl st p ow : place_clean st p = true ->
+  Lemma install_at_rel tbl st p ow : not_installed_dir_with_nonexec_candidate st p = true ->
     let src := rs_src (resolve st p) in
     install_at tbl st p ow = install tbl st src ow \/
     (exists exe n copy, locate src = LOk exe n copy /\ rs_home (resolve st p) = Some n /\
@@ -1236,7 +1230,7 @@ Section Theorems.
   Qed.
 
   Lemma install_at_step_ok tbl st p ow :
-    source_ok (rs_src (resolve st p)) = true -> place_clean st p = true ->
+    source_ok (rs_src (resolve st p)) = true -> not_installed_dir_with_nonexec_candidate st p = true ->
     install_at_ok tbl st p ow (snd (install_at tbl st p ow)) (view_of tbl (fst (install_at tbl st p ow))) = true.
   Proof.
     intros Hwf Hc. unfold install_at_ok. set (src := rs_src (resolve st p)) in *.
